@@ -2,23 +2,17 @@ import DdoModel.Proofs.PooledInv
 import DdoModel.Props.C08
 import DdoModel.Props.C07p
 import DdoModel.Props.C13b
-/-! # C08 for the pooled diagram — what carries over, and what does not
+/-! # C08 for the pooled diagram — shared lemma, and what failed before the repair of D5
 
-For a pooled compilation that ends normally (`.ok`), any cache / dominance configuration, for both results of `compileP`:
-
-* `cutset_exact_pooled` (i): **holds** — every sub-problem `c` of the cut-set is reached (`ReachSkip`: unimpacted
-  variables carry no decision) at `(c.depth, c.state, c.value)` by `p0 ++ q`, `q` the decisions of the diagram from its
-  root down to the node, and `c.path = cfg.root.path ++ q.reverse`.  Any compilation type, long arcs allowed.
-* (ii) cut-set progress is **false** for the pooled diagram with long arcs (known finding D5): `not_cutset_progress_pooled`
-  exhibits a relaxed pooled compilation, rooted at `(state 0, value 0, depth 0)`, whose cut-set contains
-  `(state 0, value 0, depth 0)`.  Mechanism: a child of the root that is not impacted by the next variable lingers in
-  the pool; two layers later `_squash_if_needed` may merge it, which makes the *root* the exact parent of an inexact
-  node, i.e. a frontier cut-set node.
-* `cutset_progress_pooled_allImpacted` (ii, bonus): it **holds when every variable impacts every state**
-  (`AllImpacted`, no long arcs): then every iteration materialises a layer, every arc comes from the layer just above,
-  the layers of index `0` and `1` are exact (no relaxation before two layers are materialised), so an inexact node sits
-  in a layer of index `≥ 2` and its exact parents — the frontier — in a layer of index `≥ 1`, at depth
-  `root.depth + index > root.depth`. -/
+* `compileP_results_ok` / `compilePOld_results_ok`: the results of a pooled compilation that ends normally are `finalizeP`
+  (resp. `finalizePOld`, the code before the repair) of the final diagram.
+* (ii) cut-set progress was **false** for the pooled diagram with long arcs before the repair (finding D5):
+  `not_cutset_progress_pooled` exhibits a relaxed pooled compilation (`compilePOld`), rooted at
+  `(state 0, value 0, depth 0)`, whose cut-set contains `(state 0, value 0, depth 0)`.  Mechanism: a child of the root that is
+  not impacted by the next variable lingers in the pool; two layers later `_squash_if_needed` may merge it, which makes the
+  *root* the exact parent of an inexact node, i.e. a frontier cut-set node.
+* The clauses for the repaired code — (i) `cutset_exact_pooled`, (ii) `cutset_progress_pooled` (a theorem for every model
+  now), `cutset_progress_pooled_allImpacted` — are in `Props/C08q.lean` (proofs: `Proofs/PooledFix.lean`). -/
 set_option linter.unusedSectionVars false
 set_option linter.unusedVariables false
 namespace Ddo.C08
@@ -39,52 +33,36 @@ theorem compileP_results_ok (cfg : Cfg S K) (cache : Cache S) (store : DomStore 
     · injection hr with hr; exact ⟨may, hr.symm⟩
     · cases hr
 
-/-- **C08 (i), pooled diagram**: the sub-problems of the cut-set are exact.  `r` is either result of the compilation.
-    Hypotheses: `p0` reaches the root sub-problem (`hroot`, with or without skips); no saturation (`hB`). -/
-theorem cutset_exact_pooled (cfg : Cfg S K) (B : Int) (p0 : List Dec) (cache : Cache S) (store : DomStore S K)
-    (polls : Nat) (stopAt : Option Nat)
-    (hroot : ReachSkip cfg.P cfg.root.depth cfg.root.state cfg.root.value p0)
-    (hB : NoClamp cfg.P cfg.R cfg.root.value B)
-    (hok : (compileP cfg cache store polls stopAt).1 = .ok) (r : Result S)
-    (hr : r = (compileP cfg cache store polls stopAt).2.1 ∨ (compileP cfg cache store polls stopAt).2.2.1 = some r) :
-    ∀ c ∈ r.cutset, ∃ q, ReachSkip cfg.P c.depth c.state c.value (p0 ++ q) ∧ c.path = cfg.root.path ++ q.reverse := by
-  obtain ⟨e, rfl⟩ := compileP_results_ok cfg cache store polls stopAt hok r hr
-  obtain ⟨k, hinv, _⟩ := buildLoopP_inv cfg B p0 hB stopAt (cfg.P.nbVars + 2) (initPD cfg cache store polls) 0
-    (initPD_inv cfg B p0 hB hroot cache store polls) (by omega)
-  intro c hc
-  exact finalizeP_cutset_exact cfg B p0 _ k e hinv c hc
+/-- the same for the code before the repair of D5 -/
+theorem compilePOld_results_ok (cfg : Cfg S K) (cache : Cache S) (store : DomStore S K) (polls : Nat) (stopAt : Option Nat)
+    (hok : (compilePOld cfg cache store polls stopAt).1 = .ok) (r : Result S)
+    (hr : r = (compilePOld cfg cache store polls stopAt).2.1 ∨ (compilePOld cfg cache store polls stopAt).2.2.1 = some r) :
+    ∃ e, r = finalizePOld cfg (buildLoopP cfg stopAt (cfg.P.nbVars + 2) (initPD cfg cache store polls)).1 e := by
+  rw [compilePOld_outcome] at hok
+  obtain ⟨must, may, h1, h2⟩ := compilePOld_ok_results cfg cache store polls stopAt hok
+  rcases hr with hr | hr
+  · exact ⟨must, hr.trans h1⟩
+  · rw [h2] at hr
+    split at hr
+    · injection hr with hr; exact ⟨may, hr.symm⟩
+    · cases hr
 
-/-- **C08 (ii), pooled diagram, without long arcs** (bonus): in a relaxed compilation of a problem in which every
-    variable impacts every state, the sub-problems of the cut-set are strictly deeper than the root sub-problem. -/
-theorem cutset_progress_pooled_allImpacted (cfg : Cfg S K) (B : Int) (p0 : List Dec) (cache : Cache S)
-    (store : DomStore S K) (polls : Nat) (stopAt : Option Nat) (hall : AllImpacted cfg.P) (hrel : cfg.ctype = .relaxed)
-    (hroot : ReachSkip cfg.P cfg.root.depth cfg.root.state cfg.root.value p0)
-    (hB : NoClamp cfg.P cfg.R cfg.root.value B)
-    (hok : (compileP cfg cache store polls stopAt).1 = .ok) (r : Result S)
-    (hr : r = (compileP cfg cache store polls stopAt).2.1 ∨ (compileP cfg cache store polls stopAt).2.2.1 = some r) :
-    ∀ c ∈ r.cutset, cfg.root.depth < c.depth := by
-  obtain ⟨e, rfl⟩ := compileP_results_ok cfg cache store polls stopAt hok r hr
-  obtain ⟨k, hinv, _⟩ := buildLoopP_inv cfg B p0 hB stopAt (cfg.P.nbVars + 2) (initPD cfg cache store polls) 0
-    (initPD_inv cfg B p0 hB hroot cache store polls) (by omega)
-  have hc := buildLoopP_cinv cfg hall hrel stopAt (cfg.P.nbVars + 2) _ (initPD_cinv cfg cache store polls)
-  obtain ⟨kf, hf⟩ := buildLoopP_full cfg hall stopAt (cfg.P.nbVars + 2) _ 0 (initPD_full cfg cache store polls)
-  intro c hmem
-  exact finalizeP_cutset_progress cfg B p0 _ k kf e hinv hc hf c hmem
-
-/-- C08 (ii) stated for the pooled diagram in full generality — **false** (`not_cutset_progress_pooled`) -/
-def cutset_progress_pooled : Prop :=
+/-- C08 (ii) stated in full generality for the pooled diagram **before the repair of D5** (`compilePOld`) — **false**
+    (`not_cutset_progress_pooled`).  For the repaired code it is the theorem `Ddo.C08.cutset_progress_pooled`
+    (`Props/C08q.lean`). -/
+def cutset_progress_pooledOld : Prop :=
   ∀ (cfg : Cfg Int Unit) (B : Int) (p0 : List Dec) (cache : Cache Int) (store : DomStore Int Unit) (polls : Nat)
     (stopAt : Option Nat), cfg.ctype = .relaxed →
     ReachSkip cfg.P cfg.root.depth cfg.root.state cfg.root.value p0 → NoClamp cfg.P cfg.R cfg.root.value B →
-    (compileP cfg cache store polls stopAt).1 = .ok →
-    ∀ c ∈ (compileP cfg cache store polls stopAt).2.1.cutset, cfg.root.depth < c.depth
+    (compilePOld cfg cache store polls stopAt).1 = .ok →
+    ∀ c ∈ (compilePOld cfg cache store polls stopAt).2.1.cutset, cfg.root.depth < c.depth
 
 /-- the witness of `Ddo.C07.WitnessP` refutes it: well-formed instance, hypotheses met, root in its own cut-set -/
-theorem not_cutset_progress_pooled : ¬ cutset_progress_pooled := by
+theorem not_cutset_progress_pooled : ¬ cutset_progress_pooledOld := by
   intro h
   have h1 := h (C07.WitnessP.cfg .relaxed) 200 [] (Cache.init 3) (DomStore.init 3) 0 none rfl ReachSkip.root
     (C07.WitnessP.noClamp .relaxed) (by decide)
-  have h2 : ∃ c ∈ (compileP (C07.WitnessP.cfg .relaxed) (Cache.init 3) (DomStore.init 3) 0 none).2.1.cutset,
+  have h2 : ∃ c ∈ (compilePOld (C07.WitnessP.cfg .relaxed) (Cache.init 3) (DomStore.init 3) 0 none).2.1.cutset,
       c.depth = 0 ∧ c.state = 0 ∧ c.value = 0 ∧ c.path = [] := by decide
   obtain ⟨c, hc, hd, _⟩ := h2
   have h3 := h1 c hc
@@ -104,19 +82,8 @@ theorem noClamp : NoClamp (cfg .relaxed).P (cfg .relaxed).R (cfg .relaxed).root.
   exact ⟨by decide, by decide, fun _ _ _ => ⟨by show (-1 : Int) ≤ 0; decide, by show (0 : Int) ≤ 1; decide⟩,
     fun _ _ _ _ c h => h, by decide⟩
 
-/-- the cut-set: the three children of the root, at depth 1 … -/
-example : (compileP (cfg .relaxed) (Cache.init 3) (DomStore.init 3) 0 none).2.1.cutset.map
-    (fun c => (c.state, c.value, c.depth, c.path.length)) = [(0, 0, 1, 1), (1, 0, 1, 1), (2, 0, 1, 1)] := by decide
-
-/-- … as the theorem says -/
-example : ∀ c ∈ (compileP (cfg .relaxed) (Cache.init 3) (DomStore.init 3) 0 none).2.1.cutset, 0 < c.depth :=
-  cutset_progress_pooled_allImpacted (cfg .relaxed) 1 [] (Cache.init 3) (DomStore.init 3) 0 none allImpacted rfl
-    ReachSkip.root noClamp (by decide) _ (.inl rfl)
-
 end WitnessP
 
 end Ddo.C08
 
-#print axioms Ddo.C08.cutset_exact_pooled
-#print axioms Ddo.C08.cutset_progress_pooled_allImpacted
 #print axioms Ddo.C08.not_cutset_progress_pooled
